@@ -79,12 +79,19 @@ def r04b(ctx: Context) -> None:
         if init is None:
             continue
         const = None
+        literal = None
+        names_of = {value: name for name, value in stack_consts.items()}
         for node in walk_local(init.node):
             if isinstance(node, ast.Call) and isinstance(node.func, ast.Attribute) and node.func.attr == "__init__" and node.args:
                 for arg in node.args:
                     name = dotted(arg) or ""
                     if name.split(".")[-1].startswith("_stack_"):
                         const = name.split(".")[-1]
+                    elif const is None and isinstance(arg, ast.Constant) and isinstance(arg.value, str) and arg.value:
+                        # the named type name is analysed as the literal it stands for
+                        literal = arg.value
+                        const = names_of.get(arg.value, repr(arg.value))
+                        break
         if const is None:
             continue
         wrapped = None
@@ -102,7 +109,7 @@ def r04b(ctx: Context) -> None:
             if token.cls == wrapped or wrapped in token.cls.mro:
                 if token.type_name:
                     expected.add(token.type_name)
-        value = stack_consts.get(const)
+        value = literal if literal is not None else stack_consts.get(const)
         if value in expected:
             rule.ok(key, f"'{value}' = type name of {wrapped.name}")
         else:
